@@ -602,6 +602,11 @@ func GenResp(t *rapid.T, idx int, method string, o RespOpts) *wire.Resp {
 				// a server that announces keep-alive and then gives no length: the body still ends where the connection ends
 				lines = append(lines, wire.KV{K: "Connection", V: "keep-alive"})
 			}
+		case 3:
+			if o.KeepAliveUntilClose {
+				// what Apache sends on plain responses when it offers h2c
+				lines = append(lines, wire.KV{K: "Upgrade", V: "h2c"}, wire.KV{K: "Connection", V: "Upgrade"})
+			}
 		}
 	}
 	r.Body = Body(n, idx, salt, flavor)
